@@ -185,8 +185,11 @@ def _iter_step(op: int, upo: Optional[bool], n: int, has_pull: bool, fail_at: in
         return None
     code = CODES[fcode]
     use_pull = None
-    if upo is None and op0 == op:
-        upo = has_pull          # the earlier call of the same kind determined the (documented, sticky) mode
+    if upo is None and op0 == op and not has_pull:
+        # the earlier call of the same kind learned "no pull": the connection goes straight to the traditional
+        # operation, which is what a fresh connection ends up with as well (only the scripted call index differs).
+        # Having learned "pull works" must NOT change the outcome: the expectation below stays that of a fresh connection.
+        upo = False
     if upo is True:
         if not has_pull:
             want_exc = CIM_ERR_NOT_SUPPORTED if fail_at != 0 else code
